@@ -4,6 +4,8 @@ Streams (all driven through harness/impl/c08_impl.py against a real SdcProvider 
   life       structured, mostly valid op lists on the 1/8 s grid            -> model (vm_compute) + oracle
   malformed  odd filters / action strings / identifiers / invalid Subscribes  -> model (vm_compute) + oracle
   decimal    arbitrary millisecond durations and clock steps                 -> oracle only (tolerant at ties)
+  e2e        real SdcConsumers (ConsumerSubscriptionManager, both identification styles): deliveries after
+             unsubscribe / expiry / renew, SubscriptionEnd handling on shutdown -> oracle only
 """
 import json
 from concurrent.futures import ThreadPoolExecutor
@@ -466,6 +468,121 @@ def oracle(case, trace, actions, consts):
     return None
 
 
+# ----------------------------------------------------------------------------- end-to-end stream (real SdcConsumer)
+E2E_KINDS = ['metric', 'alert', 'component', 'operational', 'context', 'waveform', 'descr']
+E2E_GRANT = 120          # ticks: world.py gives the provider a maximum of 15 s, the consumer asks for 60 s
+
+
+def gen_e2e(rng, max_steps):
+    c = {'e2e': True, 'stream': 'e2e', 'style': rng.choice(['path', 'ref']), 'async': rng.random() < 0.4,
+         'cons_ref': rng.random() < 0.5, 'nconsumers': rng.randint(1, 2), 'steps': []}
+    for _ in range(rng.randint(3, max_steps)):
+        r = rng.random()
+        i = rng.randrange(c['nconsumers'])
+        if r < 0.4:
+            c['steps'].append(['tx', rng.choice(E2E_KINDS)])
+        elif r < 0.6:
+            c['steps'].append(['adv', rng.choice([8, 9, 40, 60, 64, 119, 120, 121, 130])])
+        elif r < 0.72:
+            c['steps'].append(['renew', i])
+        elif r < 0.8:
+            c['steps'].append(['status', i])
+        elif r < 0.88:
+            c['steps'].append(['unsub', i])
+        else:
+            c['steps'].append(['hk'])
+    if rng.random() < 0.8:
+        c['steps'].append(['stop', rng.random() < 0.8])
+    return c
+
+
+def oracle_e2e(case, trace):
+    """C08 on an end-to-end trace: what the provider hands to each real consumer and what the consumer's
+    ConsumerSubscriptionManager makes of it."""
+    now = 0
+    n = case['nconsumers']
+    st = [{'t0': 0, 'unsub': False, 'dead': False} for _ in range(n)]
+    stopped = False
+
+    def alive(s):
+        return not (s['unsub'] or s['dead'] or stopped) and now - s['t0'] < E2E_GRANT
+
+    if not trace or trace[0].get('crash'):
+        return 0, 'crash', 'setup', str(trace[0].get('crash') if trace else 'no trace')[-400:]
+    prev = trace[0]
+    if any(x != 2 for x in prev['nsubs']) or not all(all(f) for f in prev['subscribed']):
+        return 0, 'crash', 'setup', f'consumers did not subscribe as expected: {prev}'
+    for k, e in enumerate(trace[1:], 1):
+        if e.get('crash'):
+            return k, 'crash', e['step'][0], e['crash'][-400:]
+        step = e['step']
+        kind = step[0]
+        per = [[h for h in e['handed'] if h[0] == i] for i in range(n)]
+        if any(h[0] is None for h in e['handed']):
+            return k, 'delivery', 'stray-message', f'message to an unknown endpoint: {e["handed"]}'
+        if kind == 'adv':
+            now += step[1]
+        if kind not in ('tx', 'stop') and e['handed']:
+            return k, 'delivery', f'sent-by-{kind}', f'{kind} step handed {e["handed"]}'
+        if kind == 'tx':
+            want = sorted(KINDS[step[1]])
+            for i in range(n):
+                got = sorted(h[2] for h in per[i] if h[1] == 'notify')
+                delta = e['counters'][i] - prev['counters'][i]
+                if alive(st[i]):
+                    if got != want or len(per[i]) != len(want):
+                        return k, 'delivery', 'missing:alive', f'consumer {i} is subscribed and alive, handed {per[i]}, expected {want}'
+                    if delta != len(want):
+                        return k, 'consumer-view', 'notification-lost', f'consumer {i} counted {delta} notifications for {want}'
+                elif per[i]:
+                    why = 'unsubscribed' if st[i]['unsub'] else ('unknown' if st[i]['dead'] else ('ended' if stopped else 'expired'))
+                    return k, 'delivery', f'extra:{why}', f'e2e: {per[i]} handed to consumer {i} which is {why}'
+        elif kind == 'renew':
+            i, rets = step[1], step[2]
+            if st[i]['unsub'] or stopped:
+                if any(r != 0.0 for r in rets):
+                    return k, 'unknown-fault', 'renew-after-unsubscribed', f'renew after unsubscribe/stop returned {rets}'
+            elif all(r == 15.0 for r in rets) and not st[i]['dead']:
+                st[i]['t0'] = now
+            elif all(r == 0.0 for r in rets) and not alive(st[i]):
+                st[i]['dead'] = True
+            else:
+                return k, 'granted', 'renew', f'e2e: renew of consumer {i} (alive={alive(st[i])}) returned {rets}'
+        elif kind == 'status':
+            i, rets = step[1], step[2]
+            if alive(st[i]):
+                want = round_half_even(Fraction((E2E_GRANT - (now - st[i]['t0'])) * 100, 8))
+                if any(round(r * 100) != want for r in rets):
+                    return k, 'status', 'inconsistent', f'e2e: get_status of consumer {i} returned {rets}, expected {want} cs'
+            elif not (st[i]['unsub'] or stopped) and all(r == 0.0 for r in rets) and not all(e['subscribed'][i]):
+                st[i]['dead'] = True
+        elif kind == 'unsub':
+            i = step[1]
+            if alive(st[i]) and (step[2] is not True or any(e['subscribed'][i])):
+                return k, 'consumer-view', 'unsubscribe', f'unsubscribe_all of a live consumer returned {step[2]}, flags {e["subscribed"][i]}'
+            st[i]['unsub'] = True
+        elif kind == 'hk':
+            for s in st:
+                if not alive(s):
+                    s['dead'] = True
+        elif kind == 'stop':
+            for i in range(n):
+                ends = [h for h in per[i] if h[1] == 'end']
+                if len(ends) != len(per[i]):
+                    return k, 'end', 'stray-message', f'stop handed {per[i]}'
+                if alive(st[i]) and step[1]:
+                    if len(ends) != e['nsubs'][i]:
+                        return k, 'end', 'missing:alive', f'consumer {i} has {e["nsubs"][i]} live subscriptions, got {len(ends)} SubscriptionEnd'
+                    if any(e['subscribed'][i]) or any(x != 'SourceShuttingDown' for x in e['end_status'][i]):
+                        return (k, 'consumer-view', 'subscription-end',
+                                f'consumer {i} after SubscriptionEnd: subscribed={e["subscribed"][i]} status={e["end_status"][i]}')
+                elif ends:
+                    return k, 'end', 'extra' if step[1] else 'sent-although-off', f'SubscriptionEnd handed to consumer {i}: {ends}'
+            stopped = True
+        prev = e
+    return None
+
+
 # ----------------------------------------------------------------------------- orchestration
 def run_impl(ctx, cases, workers=4):
     chunks = [cases[i::workers] for i in range(workers)]
@@ -513,7 +630,8 @@ def run(ctx):
     if consts.get('_crash') or 'actions' not in consts:
         return ctx.finish('translator failed', [], [])
     actions = consts['actions']
-    if not ctx.prove():
+    proof_ok = ctx.prove()
+    if not proof_ok:
         ctx.broken('theorem', 'Props/C08.v', ctx.proof_error)
     hist = Counter()
     plan = [('life', ctx.n(260, 3200), ctx.n(16, 60)), ('malformed', ctx.n(110, 1200), ctx.n(16, 50)),
@@ -541,6 +659,14 @@ def run(ctx):
             mism, err = ctx.coq_mism(stream, HEADER, 'trace_eqb', 'run_case', lits, shard=ctx.n(40, 100), deps=DEPS)
             if err:
                 ctx.broken('correspondence', f'{stream} (coq evaluation)', err)
+            if not proof_ok and not err:
+                # search the MODEL for a witness with the boolean twin of the theorems, then look at that case's
+                # implementation trace (already judged by the oracle above)
+                tw, terr = ctx.coq_mism(stream + '_twin', HEADER, 'Bool.eqb', 'check_case',
+                                        [(a, 'true') for a, _ in lits], shard=ctx.n(40, 100), deps=DEPS)
+                ctx.cov.setdefault('twin', {})[stream] = {'model_level_failures': len(tw), 'error': terr,
+                                                          'first': cases[tw[0]] if tw else None}
+                ctx.log(f'{stream}: boolean twin check_C08 fails on {len(tw)} generated cases of the model')
             if mism:
                 i = mism[0]
                 model = ctx.coq_eval(HEADER, f'run_case {lits[i][0]}')
@@ -554,6 +680,24 @@ def run(ctx):
         if cases:
             ctx.sample({'stream': stream, 'case': cases[0],
                         'trace': [[e['resp'], [h['m'] for h in e['handed']]] for e in traces[0]]})
+    t_0 = _time.time()
+    e2e = [gen_e2e(ctx.rng, ctx.n(10, 20)) for _ in range(ctx.n(24, 300))]
+    traces, crash = run_impl(ctx, e2e, workers=ctx.n(6, 8))
+    if crash:
+        ctx.broken('correspondence', 'e2e', crash.get('stderr', crash))
+    else:
+        for c, tr in zip(e2e, traces):
+            hist['e2e_steps'] += len(tr)
+            hist['e2e_handed'] += sum(len(x.get('handed', [])) for x in tr)
+            bad = oracle_e2e(c, tr)
+            if bad:
+                n, clause, detail, text = bad
+                ctx.fail(f'e2e stream, step {n}: {text}', {'stream': 'eventing', 'clause': clause, 'detail': detail},
+                         {'stream': 'e2e', 'case': c, 'failing_op_index': n, 'impl_trace': tr[:n + 1],
+                          'oracle': {'verdict': 'fail', 'clause': clause, 'detail': detail, 'text': text}})
+        ctx.count('e2e', len(e2e), [json.dumps(t, sort_keys=True) for t in traces], ops=sum(len(t) for t in traces))
+        ctx.sample({'stream': 'e2e', 'case': e2e[0], 'trace': [[x.get('step'), x.get('handed')] for x in traces[0]]})
+        ctx.log(f'e2e: {len(e2e)} scenarios with real SdcConsumers in {_time.time() - t_0:.0f}s')
     ctx.cov['histogram'] = dict(sorted(hist.items()))
     if ctx.thorough:
         hits = ctx.gate_grep(['Eventing', 'Common'])
@@ -591,6 +735,12 @@ def replay(ctx, rep):
         print(crash)
         return 1
     tr = traces[0]
+    if case.get('e2e'):
+        for e in tr:
+            print(e)
+        bad = oracle_e2e(case, tr)
+        print('oracle:', bad)
+        return 1 if bad else 0
     bad = oracle(case, tr, actions, consts)
     for (op, a), e in zip(expand_ops(case, actions), tr):
         print(op[:2] if op[0] == 'sub' else op, '->', e['resp'], [h['m'] for h in e['handed']], e['table'], e['pool'])
